@@ -171,6 +171,29 @@ Theorem C01_watch_invariant : forall (table : Type) (build : str -> option table
 Proof. exact run_init_inv. Qed.
 Print Assumptions C01_watch_invariant.
 
+(* The watcher delivers one config per observed snapshot, in snapshot order (Model/Consul.v
+   [watch_deliveries]: one snapshot is fully processed before the next blocking query is
+   issued; tied to /repo by the delayed-catalog histories of the correspondence run).  So the
+   last delivered service config is the final registry state's ... *)
+Theorem C01_last_delivery_is_final_state : forall prefix status strict snaps final tf h d,
+  map (@Ok str) (svc_texts h) = watch_deliveries prefix status strict (snaps ++ [final]) ->
+  svc_config prefix status strict (fst final) (snd final) = Ok tf ->
+  last_svc h d = tf.
+Proof. exact last_delivery_is_final_state. Qed.
+Print Assumptions C01_last_delivery_is_final_state.
+
+(* ... and once the registry's view stops changing at state [final], the active table is the
+   table of final's config plus the last manual text. *)
+Theorem C01_watch_quiescent_final_state : forall (table : Type) (build : str -> option table)
+    prefix status strict snaps final tf (w : wstate table) h e T,
+  inv table build w ->
+  map (@Ok str) (svc_texts (h ++ [e])) = watch_deliveries prefix status strict (snaps ++ [final]) ->
+  svc_config prefix status strict (fst final) (snd final) = Ok tf ->
+  build (next_text tf (last_man (h ++ [e]) (w_man w))) = Some T ->
+  w_active (run table build w (h ++ [e])) = T /\ w_first (run table build w (h ++ [e])) = true.
+Proof. exact watch_quiescent_final_state. Qed.
+Print Assumptions C01_watch_quiescent_final_state.
+
 (* A rejected candidate leaves the active table as it was; the next accepted one is applied. *)
 Theorem C01_watch_keeps_last_good : forall (table : Type) (build : str -> option table) w e,
   inv table build w -> build (cur_text table w e) = None ->
